@@ -8,6 +8,8 @@ for d in BoltonsVerif/C[0-9][0-9]; do
   id="$(basename "$d")"
   lc="$(echo "$id" | tr 'A-Z' 'a-z')"
   targets="$targets BoltonsVerif.$id.Props drv_$lc"
+  # source-translator tie (SrcTie): built like Props when the property has one
+  [ -f "$d/SrcTie.lean" ] && targets="$targets BoltonsVerif.$id.SrcTie"
 done
 # translator output must exist before the first build
 PYTHONPATH="$here/harness" /venv/bin/python -m bv.regen_all || exit 2
